@@ -250,9 +250,12 @@ func (k Keeper) GetOperatorAddressForChainIDAndConsAddr(
 func (k *Keeper) InitiateOperatorKeyRemovalForChainID(
 	ctx sdk.Context, opAccAddr sdk.AccAddress, chainID string,
 ) {
-	// found will always be true, since the operator has registered into the chain
-	// and during registration a key must be set.
-	_, key := k.getOperatorConsKeyForChainID(ctx, opAccAddr, chainID)
+	// an operator can be opted in without a key (OptIn does not require one). in that case
+	// there is no key to remove: no marker is set and nobody needs to be notified.
+	found, key := k.getOperatorConsKeyForChainID(ctx, opAccAddr, chainID)
+	if !found {
+		return
+	}
 	// we don't check if the operator is already opted out, because this function
 	// can only be called if the operator is currently opted in.
 	store := ctx.KVStore(k.storeKey)
